@@ -25,6 +25,7 @@ func main() {
 	tier := fs.String("tier", "quick", "tier")
 	max := fs.Int("max", 0, "behaviours per configuration (0 = all)")
 	maxslow := fs.Int("maxslow", 0, "same for slow configurations")
+	bindings := fs.Int("bindings", 1, "c08: operand bindings per behaviour on eddsa / schnorr-ed")
 	mode := fs.String("mode", "", "c09: bls | tbls | bdn | cosi")
 	exh := fs.Int("exh", 2, "c09: combinations replayed exhaustively (-1 = all)")
 	pairmax := fs.Int("pairmax", 0, "c09 bdn: behaviours per combination with the pairing-level final step (0 = all)")
@@ -38,7 +39,7 @@ func main() {
 	var err error
 	switch drv {
 	case "c08":
-		err = sig.RunC08(sig.C08Config{Prop: *prop, In: *in, Seed: *seed, Tier: *tier, Groups: *groups, Max: *max, MaxSlow: *maxslow}, res)
+		err = sig.RunC08(sig.C08Config{Prop: *prop, In: *in, Seed: *seed, Tier: *tier, Groups: *groups, Max: *max, MaxSlow: *maxslow, Bindings: *bindings}, res)
 	case "c09":
 		err = sig.RunC09(sig.C09Config{Prop: *prop, Mode: *mode, In: *in, Seed: *seed, Tier: *tier, Combos: *groups, Exh: *exh, Max: *max, MaxSlow: *maxslow, PairMax: *pairmax, MaskMax: *maskmax, NS: *ns}, res)
 	case "masktrace":
